@@ -22,6 +22,8 @@ import (
 	"os"
 	"runtime"
 	"runtime/debug"
+	"runtime/pprof"
+	"strconv"
 	"strings"
 
 	"github.com/ethereum/go-ethereum/core/types"
@@ -73,7 +75,17 @@ func genesis(m *model, height uint64) (*mnode, []byte) {
 
 func main() {
 	r := ev.Start("C29", "model_checking")
-	debug.SetGCPercent(400)
+	if pf := os.Getenv("VERIF_C29_PROF"); pf != "" {
+		f, _ := os.Create(pf)
+		pprof.StartCPUProfile(f)
+		defer pprof.StopCPUProfile()
+		stopProf = pprof.StopCPUProfile
+	}
+	gcp := 25
+	if v, err := strconv.Atoi(os.Getenv("VERIF_GOGC")); err == nil {
+		gcp = v
+	}
+	debug.SetGCPercent(gcp) // small heap: fresh pages are expensive to fault in on this box
 	debug.SetMemoryLimit(5 << 30)
 	polygon.VerifSkipSpanCheck(true)
 	env := hsenv.Setup(0) // private net: no router start-block gate, no test-net header fix-ups
@@ -88,8 +100,12 @@ func main() {
 	for i, rt := range routers {
 		chainOf[rt.Name] = uint64(101 + i)
 		probeOf[rt.Name] = uint64(201 + i)
-		for _, c := range []uint64{chainOf[rt.Name], probeOf[rt.Name]} {
-			if err := rt.Register(w, env.Vals, c, 1, []byte{1, 2, 3}); err != nil {
+		for ci, c := range []uint64{chainOf[rt.Name], probeOf[rt.Name]} {
+			reg := rt
+			if ci == 1 {
+				reg = rt.WithEpoch(200) // probe chain: the real chain constant
+			}
+			if err := reg.Register(w, env.Vals, c, 1, []byte{1, 2, 3}); err != nil {
 				r.HarnessError("%v", err)
 			}
 			if sc, err := side_chain_manager.GetSideChain(hsenv.Reader(w), c); err != nil || sc == nil {
@@ -127,7 +143,9 @@ func main() {
 		probeRealEpoch(r, env, m, sims, base, probeOf[rt.Name])
 	}
 
-	depth := r.QT(5, 7)
+	// depth bound per router (quick / thorough). bytom is a verbatim copy of bsc and hsc a near copy of heco, so the
+	// deepest level is spent on one of each pair; msc (votes) and pixiechain (lists accepted everywhere) branch most.
+	depths := map[string][2]int{"bsc": {5, 7}, "bytom": {5, 6}, "heco": {5, 7}, "hsc": {5, 6}, "pixiechain": {4, 5}, "msc": {3, 4}, "polygon-bor": {4, 5}}
 	per := map[string]any{}
 	totalStates, totalTrans, maxDepth := 0, 0, 0
 	for _, rt := range routers {
@@ -141,7 +159,7 @@ func main() {
 			gh = 1000
 		}
 		g, graw := genesis(m, gh)
-		d := depth
+		d := r.QT(depths[rt.Name][0], depths[rt.Name][1])
 		st := explore(r, env, m, sims, base, chainOf[rt.Name], g, graw, d, workers)
 		totalStates += st.States
 		totalTrans += st.Transitions
@@ -152,18 +170,19 @@ func main() {
 			r.Capped(fmt.Sprintf("%s: deadline inside depth %d", rt.Name, st.MaxDepth+1))
 		}
 		per[rt.Name] = map[string]any{"states": st.States, "transitions": st.Transitions, "max_depth": st.MaxDepth, "per_depth": st.PerDepth,
-			"truncated": st.Truncated, "trust_root_height": gh, "covered": covered(rt), "missing": missing(rt)}
+			"truncated": st.Truncated, "trust_root_height": gh, "depth_bound": d, "covered": covered(rt), "missing": missing(rt)}
 	}
-	if r.NViolations() == 0 && len(only) == 0 {
+	if len(only) == 0 { // (ev.Finish reports violations before the vacuity guard)
 		for _, rt := range routers {
 			r.Require(rt.Name+":accept", rt.Name+":reject", rt.Name+":accept-list-header", rt.Name+":accept-under-new-set",
 				rt.Name+":extend-head", rt.Name+":reject:signer-not-in-validator-set", rt.Name+":reject:difficulty-does-not-match-turn",
 				rt.Name+":orphan-ignored", rt.Name+":dup-noop")
 			if rt.Family != posa.Bor {
-				r.Require(rt.Name+":reject:signer-within-recent-window", rt.Name+":reorg", rt.Name+":tie-head-kept")
+				r.Require(rt.Name+":reject:signer-within-recent-window", rt.Name+":reorg", rt.Name+":tie-observed")
 			}
 		}
 	}
+	stopProf()
 	r.Assume("secp256k1 / Keccak-256 / RLP of go-ethereum 1.9.15 are correct",
 		"header timestamps lie in the past: the routers' wall-clock test header.Time > time.Now() (finding F7) is constant false",
 		"polygon bor: the comparison of a sprint-end header's producer list with a heimdall span is switched off through the repo's own test flag skipVerifySpan (span proofs need a heimdall light-client state); the bor proposer used for the in-turn difficulty is read from the router's stored snapshot (proposer-priority rotation is not re-modelled)",
@@ -171,9 +190,11 @@ func main() {
 	r.Finish(map[string]any{
 		"rule":   "stored => parent stored && sealer in the validator set in force && not within the recent-signer window (len/2 previous blocks) && difficulty == in-turn?2:1 (bor: N - succession) && fixed-format fields well formed; canonical index rooted/contiguous/linked, TD sums, canonical head has maximal TD",
 		"states": totalStates, "transitions": totalTrans, "traces_validated_against_impl": totalTrans, "max_depth": maxDepth,
-		"bfs_depth_bound": depth, "routers": per, "validator_keys": "k0..k3 (+k4 outsider), sets A={k0,k1,k2} B={k3,k1,k2} C={k0,k1,k2,k3}",
+		"bfs_depth_bound": depths, "routers": per, "validator_keys": "k0..k3 (+k4 outsider), sets A={k0,k1,k2} B={k3,k1,k2} C={k0,k1,k2,k3}",
 	})
 }
+
+var stopProf = func() {}
 
 func covered(rt *posa.Router) []string {
 	c := []string{"real seals by members / non-members / outsider", "both difficulties per sealer", "recent-signer window (sets of 3 and 4)",
@@ -221,10 +242,29 @@ func probeRealEpoch(r *ev.Run, env *hsenv.Env, m *model, sims chan *hsenv.Sim, b
 		n := &mnode{label: p.label + "/" + encodeSpec(sp, ""), parent: p, height: p.height + 1, sp: sp, hdr: hd, hash: hex.EncodeToString(rt.Hash(hd).Bytes()), prop: -1}
 		return n, isStored(hd), fmt.Sprint(res.Err)
 	}
-	setA := m.inEffect(g)
-	sp := spec{signer: setA[int(1001%uint64(len(setA)))], diff: 2, list: listCodes["B"], vote: -1}
-	n1, stored, errs := submit(g, sp)
-	bad := m.judge(g, sp, -1)
+	// 1001: ordinary header by the in-turn validator; 1002 (not an epoch block either) carries list B. (Directly after a
+	// list-carrying header four of the routers refuse another list for len/2 blocks: "can not change epoch continuously".)
+	h1 := m.honest(g, -1)[0]
+	n0, ok0, e0 := submit(g, h1)
+	if !ok0 {
+		r.HarnessError("%s: probe: honest header 1001 rejected: %s", rt.Name, e0)
+	}
+	setA := m.inEffect(n0)
+	var sp spec
+	for _, k := range setA {
+		d := int64(1)
+		if setA[int(1002%uint64(len(setA)))] == k {
+			d = 2
+		}
+		sp = spec{signer: k, diff: d, list: listCodes["B"], vote: -1}
+		c := sp
+		c.list = nil
+		if len(m.judge(n0, c, -1)) == 0 {
+			break
+		}
+	}
+	n1, stored, errs := submit(n0, sp)
+	bad := m.judge(n0, sp, -1)
 	if !stored {
 		r.Class(rt.Name + ":probe-real-epoch:rejected")
 		r.Note("probe_real_epoch_"+rt.Name, "rejected: "+errs)
@@ -263,8 +303,8 @@ func probeRealEpoch(r *ev.Run, env *hsenv.Env, m *model, sims chan *hsenv.Sim, b
 	for _, b := range bad {
 		r.Violation(rt.Name+"/stored/"+b, map[string]any{"router": rt.Name,
 			"scenario": "chain epoch length 200 (bsc/heco main-net constant; the router has no epoch parameter): trust root = epoch block 1000 listing {k0,k1,k2}; " +
-				"header 1001 (NOT an epoch block) sealed by the in-turn validator k" + fmt.Sprint(sp.signer) + " with difficulty 2 carries the validator list {k3,k1,k2}",
-			"what":        "header 1001 was stored and its list is adopted as the next validator set; parlia/congress reject such a header (errExtraValidators: non-epoch block with validator list)",
+				"header 1001 sealed by k" + fmt.Sprint(h1.signer) + "; header 1002 (NOT an epoch block) sealed by validator k" + fmt.Sprint(sp.signer) + fmt.Sprintf(" with difficulty %d carries the validator list {k3,k1,k2}", sp.diff),
+			"what":        "header 1002 was stored and its list is adopted as the next validator set; parlia/congress reject such a header (errExtraValidators: non-epoch block with validator list)",
 			"consequence": follow})
 	}
 }
